@@ -610,6 +610,17 @@ func R10() Rule {
 			for _, ci := range core.CallsIn(mscope, func(ci *core.CallInfo) bool { return ci.MethodOn(pkgBtree, "BTree", "ReplaceOrInsert") }) {
 				// item literal: its meta field is stored from a dereference (struct copy) of the parameter
 				if mi, isMI := ci.Common.Args[1].(*ssa.MakeInterface); isMI {
+					// a record type whose metadata field is a struct value (not a pointer) holds a copy by construction
+					if pt, isP := mi.X.Type().Underlying().(*types.Pointer); isP {
+						if stt, isS := pt.Elem().Underlying().(*types.Struct); isS {
+							for i := 0; i < stt.NumFields(); i++ {
+								ft := stt.Field(i).Type()
+								if _, isPtr := ft.Underlying().(*types.Pointer); !isPtr && core.TypeIs(ft, pkgStorageV1, "Object") {
+									ok = true
+								}
+							}
+						}
+					}
 					if a, isA := mi.X.(*ssa.Alloc); isA {
 						for _, r := range core.Referrers(a) {
 							if fa, isFa := r.(*ssa.FieldAddr); isFa {
@@ -881,7 +892,8 @@ func R29() Rule {
 				if ci.Static != nil && ci.Static.Name() == "Add" && ci.Static.Signature.Recv() != nil {
 					if nm := core.NamedOf(ci.Static.Signature.Recv().Type()); nm != nil && (core.TName(nm) == "memstore" || core.TName(nm) == "filestore") {
 						n++
-						c.Check(strings.HasSuffix(root, ").Copy"), "R29", "who-may-call/"+core.TName(nm)+".Add/"+root, ci.Instr.Pos(), "the store's own Copy", "a store's Add is called directly from "+root)
+						_, okCopy := tableOrHelperOf(P, core.Root(fn), map[string]string{"(*" + core.TName(nm) + ").Copy": "the store's own Copy"})
+						c.Check(okCopy, "R29", "who-may-call/"+core.TName(nm)+".Add/"+root, ci.Instr.Pos(), "the store's own Copy", "a store's Add is called directly from "+root)
 					}
 				}
 			}
